@@ -16,8 +16,8 @@ import pilgen
 from core import Result
 
 LEVEL = "proof"
-LEVEL_NOTE = ("contract of the written files and acceptance by test_consistency are theorems about the model (any seeded graph "
-              "satisfying the closure precondition); the binary itself is exercised on every sampled triple")
+LEVEL_NOTE = ("contract of the written files and acceptance by test_consistency are theorems for both layouts; the separator "
+              "clause and the binary itself are exercised on every sampled triple")
 
 
 def real_files(d, fn, layout, tag):
